@@ -4,6 +4,7 @@ CONSTANTS
   External = {}
   w1 = w1
   w2 = w2
+  w3 = w3
   s1 = s1
   s2 = s2
   Subs = {s1, s2}
